@@ -6,6 +6,7 @@ import (
 	"encoding/xml"
 	"errors"
 	"fmt"
+	"io"
 	"runtime"
 	"strconv"
 	"strings"
@@ -29,11 +30,12 @@ func TestMain(m *testing.M) { ev.Main(m, "C10") }
 // ---------------------------------------------------------------- case model
 
 type action struct {
-	kind  string // close transmit peerclose peererror handlererror handlerreply deadline
+	kind  string // close transmit peerclose peererror handlererror handlerreply deadline readfail
 	entry string // transmit: entry point
 	idx   int    // marker of transmit / handler reply
 	big   bool
 	cond  string
+	errk  string // handlererror / readfail: shape of the error (plain wrapeof eof wrapunexpected)
 
 	// results
 	err      error
@@ -59,7 +61,7 @@ func genCase(t *rapid.T) tcase {
 		for a := 0; a < na; a++ {
 			kinds := []string{"close", "close", "transmit", "transmit", "transmit"}
 			if tc.serve {
-				kinds = append(kinds, "peerclose", "peererror", "handlererror", "handlerreply", "handlerreply", "deadline")
+				kinds = append(kinds, "peerclose", "peererror", "handlererror", "handlerreply", "handlerreply", "deadline", "readfail")
 			}
 			ac := &action{kind: rapid.SampledFrom(kinds).Draw(t, "kind")}
 			switch ac.kind {
@@ -73,6 +75,14 @@ func genCase(t *rapid.T) tcase {
 				idx++
 			case "peererror":
 				ac.cond = rapid.SampledFrom([]string{"conflict", "system-shutdown", "not-authorized"}).Draw(t, "cond")
+			case "handlererror":
+				// whatever a failing handler returns (a bare or wrapped io.EOF from
+				// reading its element to the end included) is a failure, not the
+				// peer's closing tag
+				ac.errk = rapid.SampledFrom([]string{"plain", "plain", "wrapeof", "eof", "wrapunexpected"}).Draw(t, "errk")
+			case "readfail":
+				// the transport fails without the peer having closed its stream
+				ac.errk = rapid.SampledFrom([]string{"plain", "wrapeof", "wrapunexpected"}).Draw(t, "errk")
 			}
 			step = append(step, ac)
 		}
@@ -195,6 +205,20 @@ func markers(n *xt.Node, out map[string]bool) {
 
 const waitLong = 15 * time.Second
 
+// shapedErr builds the error a failing handler returns or a failing transport
+// reports: none of these is the peer's closing tag.
+func shapedErr(k, what string) error {
+	switch k {
+	case "wrapeof":
+		return fmt.Errorf("verif: %s: %w", what, io.EOF)
+	case "eof":
+		return io.EOF
+	case "wrapunexpected":
+		return fmt.Errorf("verif: %s: %w", what, io.ErrUnexpectedEOF)
+	}
+	return errors.New("verif: " + what)
+}
+
 // ---------------------------------------------------------------- property
 
 func check(t interface {
@@ -233,7 +257,13 @@ func check(t interface {
 	h := xmpp.HandlerFunc(func(t xmlstream.TokenReadEncoder, start *xml.StartElement) error {
 		switch start.Name.Local {
 		case "boom":
-			return errors.New("verif: handler failed")
+			k := ""
+			for _, a := range start.Attr {
+				if a.Name.Local == "k" {
+					k = a.Value
+				}
+			}
+			return shapedErr(k, "handler failed")
 		case "trigger":
 			var m string
 			for _, a := range start.Attr {
@@ -269,6 +299,12 @@ func check(t interface {
 	}
 	var txs []txInfo
 	anyClose := false
+	dead := false // the transport has failed: nothing fed afterwards can arrive
+	feed := func(x string) {
+		if !dead {
+			sv.Feed(x)
+		}
+	}
 
 	for _, step := range tc.steps {
 		stepHasClose := false
@@ -303,24 +339,32 @@ func check(t interface {
 				if inputTerminated == "" {
 					inputTerminated = "peerclose"
 				}
-				sv.Feed("</stream:stream>")
+				feed("</stream:stream>")
 			case "peererror":
 				if inputTerminated == "" {
 					inputTerminated = "peererror"
 					firstErrCond = a.cond
 				}
-				sv.Feed(`<stream:error><` + a.cond + ` xmlns="urn:ietf:params:xml:ns:xmpp-streams"/></stream:error>`)
+				feed(`<stream:error><` + a.cond + ` xmlns="urn:ietf:params:xml:ns:xmpp-streams"/></stream:error>`)
 			case "handlererror":
 				if inputTerminated == "" {
 					inputTerminated = "handlererror"
 				}
-				sv.Feed(`<boom xmlns="urn:verif:c10"/>`)
+				feed(`<boom xmlns="urn:verif:c10" k="` + a.errk + `"/>`)
+			case "readfail":
+				if inputTerminated == "" {
+					inputTerminated = "readfail"
+				}
+				if !dead {
+					sv.Conn.FailInput(shapedErr(a.errk, "connection lost"))
+				}
+				dead = true
 			case "handlerreply":
 				replyFed = true
 				if closeReturned || stepHasClose {
 					replyAfterClose = true
 				}
-				sv.Feed(`<trigger xmlns="urn:verif:c10" m="` + strconv.Itoa(a.idx) + `"/>`)
+				feed(`<trigger xmlns="urn:verif:c10" m="` + strconv.Itoa(a.idx) + `"/>`)
 			case "deadline":
 				deadlineSet = true
 				a.panicked = ev.Guard(func() { a.err = s.SetCloseDeadline(time.Now().Add(40 * time.Millisecond)) })
@@ -485,6 +529,10 @@ func check(t interface {
 		case inputTerminated == "handlererror":
 			if serveErr == nil {
 				fail("a handler failed but Serve returned nil")
+			}
+		case inputTerminated == "readfail":
+			if serveErr == nil {
+				fail("the transport failed (the peer did not close its stream) but Serve returned nil")
 			}
 		case deadlineSet:
 			if serveErr == nil {
